@@ -179,6 +179,7 @@ def run_case(case, ctx, res):
         x = np.abs(x) + (0.0 if rng.random() < 0.3 else 1e-3)     # may contain zeros -> log10 = -inf
     if logy:
         y = np.abs(y) + 1e-3
+    bulk = (np.array(x, dtype=float), np.array(y, dtype=float))     # explicit limits are taken from the bulk of the data
     if n > 6 and rng.random() < 0.4:
         # finite values (very) far outside any sensible range: "any value distribution"
         for k in range(int(rng.integers(1, 5))):
@@ -211,10 +212,8 @@ def run_case(case, ctx, res):
         res.tag("log-axis")
     if explicit and n > 0:
         res.tag("explicit-limits")
-        fx = np.asarray(x, float)
-        fx = fx[np.isfinite(fx)]
-        fy = np.asarray(y, float)
-        fy = fy[np.isfinite(fy)]
+        fx = bulk[0][np.isfinite(bulk[0])] if len(bulk[0]) == n else np.asarray(x, float)
+        fy = bulk[1][np.isfinite(bulk[1])] if len(bulk[1]) == n else np.asarray(y, float)
         if len(fx) and len(fy):
             lo, hi = float(fx.min()), float(fx.max())
             w = (hi - lo) or 1.0
